@@ -78,6 +78,25 @@ func (e *Engine) frameObligations(fc *FuncContract, fn *ssa.Function, args []Val
 			continue
 		}
 		goal := e.sameShallow(entryV, exitV, exit)
+		if ev, ok := entryV.(StructV); ok {
+			if xv, ok := exitV.(StructV); ok && len(ev.F) == len(xv.F) {
+				// field-level assigns: param.field entries exempt single fields
+				var cs []string
+				for k := range ev.F {
+					if assigned[fn.Params[i].Name()+"."+ev.Typ.Field(k).Name()] {
+						continue
+					}
+					if ev.F[k] == nil && xv.F[k] == nil && ev.Sym == xv.Sym {
+						continue
+					}
+					if ev.F[k] == nil && ev.Sym != "" && xv.F[k] == nil {
+						continue
+					}
+					cs = append(cs, e.sameShallow(e.field(ev, k), e.field(xv, k), exit))
+				}
+				goal = and(cs...)
+			}
+		}
 		e.oblige("frame", fn.Params[i].Name(), reach, goal, fn.Pos())
 	}
 }
